@@ -155,6 +155,16 @@ func clientOps(rep *Report, f *icl.File, variant int) {
 					h.OriginatorContactName = ""
 					c.CashLetterHeader = h
 				}
+				if i == 1 {
+					// a control record that does not match its items (stored as submitted): a later validation must not
+					// rewrite it
+					for bi := range c.Bundles {
+						bc := c.Bundles[bi].BundleControl
+						bc.MicrValidTotalAmount = 0
+						bc.CreditTotalIndicator = 1 - bc.CreditTotalIndicator
+						c.Bundles[bi].BundleControl = bc
+					}
+				}
 				rep.Evaluations++
 				if _, err := api.AddICLToFile(ctx, create.ID, c, nil); err != nil {
 					rep.count("client-op:add-cash-letter:refused")
@@ -174,6 +184,24 @@ func clientOps(rep *Report, f *icl.File, variant int) {
 					rep.violate(Violation{Key: "C20:client-op:add-cash-letter:" + m, What: "AddICLToFile: the stored cash letter differs from the one the client submitted in " + m,
 						Replay: map[string]any{"step": i + 1, "member": m}})
 				}
+			}
+		}
+	}
+	// validation through the client is a read: the stored file is what it was
+	if g := stored(); g != nil {
+		before, _ := json.Marshal(g)
+		rep.Evaluations++
+		_, _, verr := api.ValidateICLFile(ctx, create.ID, nil)
+		if verr != nil {
+			rep.count("client-op:validate:refused")
+		} else {
+			rep.count("client-op:validate:ok")
+		}
+		if h := stored(); h != nil {
+			after, _ := json.Marshal(h)
+			if string(before) != string(after) {
+				rep.violate(Violation{Key: "C20:client-op:validate:stored-file-changed", What: "ValidateICLFile changed the file the server stores",
+					Replay: map[string]any{"before": string(before)[:min(len(before), 3000)], "after": string(after)[:min(len(after), 3000)]}})
 			}
 		}
 	}
